@@ -10,6 +10,15 @@
 //   R k        k steps                        -> state line + aggregated per-step predicates
 //   W          save A, restore into a fresh default instance B that was init-ed on the same objective at another
 //              point and stepped twice; from now on B performs every step too
+//   L <ls> <n> <fk> <seed> <slope> <thr> | point (n) | d (n) | t0 | value or "auto" | g (n) or "auto"
+//              ONE call of LineSearch<RealVector>::operator() (the dispatch + dlinmin / wolfecubic / backtracking) on a
+//              hooked objective that logs every evaluation (E eval, D evalDerivative: kind:t:value:gradient.d) with its step length
+//              t = x[j]/d[j] (j = first non-zero entry of d; the generator keeps point[j] = 0 and d[j] = +-2^k, so t
+//              is exact).  Objective kinds: fk = H: value and gradient are small dyadic numbers drawn from a hash of
+//              the bit patterns of x (a function of the point, evaluated identically by ocaml/c10_driver.ml);
+//              fk = M: -slope * t while |t| <= thr, the hash beyond; fk = P: t^4 + 2t^3 - slope*t (not compared with the model).  Output: new point / value / derivative, the
+//              log, nf=1 if a non-finite point was evaluated, ub=1 if the result depends on the previous contents
+//              of the stack (two runs after filling the stack with different patterns differ).
 // Numbers in: integers, p/q, or anything strtod accepts (hex floats).  Numbers out: %a.
 #include <cstdio>
 #include <cstdlib>
@@ -32,6 +41,7 @@
 #include <shark/Algorithms/GradientDescent/BFGS.h>
 #include <shark/Algorithms/GradientDescent/LBFGS.h>
 #include <shark/Algorithms/GradientDescent/CG.h>
+#include <shark/Algorithms/GradientDescent/LineSearch.h>
 #include <boost/archive/polymorphic_text_oarchive.hpp>
 #include <boost/archive/polymorphic_text_iarchive.hpp>
 
@@ -120,6 +130,10 @@ struct PeekCG : public CG<RealVector> {
 	static unsigned count(CG<RealVector> const& o) { return o.*(&PeekCG::m_count); }
 };
 
+struct PeekBFGS : public BFGS<RealVector> {
+	static RealMatrix const& hessian(BFGS<RealVector> const& o) { return o.*(&PeekBFGS::m_hessian); }
+};
+
 std::string hexd(double v) { char buf[64]; std::snprintf(buf, sizeof buf, "%a", v); return buf; }
 std::string hexv(RealVector const& v) {
 	std::string s;
@@ -202,6 +216,12 @@ std::string stateLine(Case& c, Opt& o, bool primary) {
 		if (primary) c.maxb = std::max(std::max(c.maxb, sigbits(Peek::steplen(*l))), std::max(maxbits(l->derivative()), maxbits(Peek::sdir(*l))));
 		CG<RealVector>* cg = dynamic_cast<CG<RealVector>*>(&o);
 		if (cg) s << " " << pre << "cnt=" << PeekCG::count(*cg);
+		BFGS<RealVector>* bf = dynamic_cast<BFGS<RealVector>*>(&o);
+		if (bf && primary) {
+			RealMatrix const& Hm = PeekBFGS::hessian(*bf);
+			s << " hess=";
+			for (std::size_t i = 0; i != Hm.size1(); ++i) for (std::size_t j = 0; j != Hm.size2(); ++j) { if (i + j) s << ","; s << hexd(Hm(i, j)); c.maxb = std::max(c.maxb, sigbits(Hm(i, j))); }
+		}
 	}
 	Rprop<RealVector>* r = dynamic_cast<Rprop<RealVector>*>(&o);
 	if (r) s << " " << pre << "der=" << hexv(r->derivative());
@@ -300,6 +320,107 @@ std::string doSteps(Case& c, long k, bool aggregate) {
 	return out + exFlag(c);
 }
 
+// ---------------------------------------------------------------- one line-search call on a hooked objective
+uint64_t mix(uint64_t h, double v) {
+	if (v == 0.0) v = 0.0;                     // -0 and +0 are the same point
+	uint64_t b; std::memcpy(&b, &v, sizeof b);
+	h ^= b + 0x9E3779B97F4A7C15ULL + (h << 6) + (h >> 2);
+	h *= 0xff51afd7ed558ccdULL;
+	h ^= h >> 33;
+	return h;
+}
+
+struct Hooked : public SingleObjectiveFunction {
+	std::size_t n, j; char fk; uint64_t seed; double slope, thr, dj;
+	struct Ev { char k; double t, f, gd; };
+	mutable std::vector<Ev> log;
+	RealVector dir;
+	mutable bool nonfinite;
+	Hooked(std::size_t n_, char fk_, uint64_t seed_, double slope_, double thr_, RealVector const& d)
+	: n(n_), j(0), fk(fk_), seed(seed_), slope(slope_), thr(thr_), dj(1.0), nonfinite(false), dir(d) {
+		m_features |= HAS_FIRST_DERIVATIVE;
+		for (std::size_t i = 0; i != n; ++i) if (d(i) != 0.0) { j = i; dj = d(i); break; }
+	}
+	std::string name() const { return "C10Hooked"; }
+	std::size_t numberOfVariables() const { return n; }
+	double value(RealVector const& x, RealVector* g) const {
+		if (g) g->resize(n);
+		for (std::size_t i = 0; i != n; ++i) if (!std::isfinite(x(i))) nonfinite = true;
+		double t = x(j) / dj;
+		if (fk == 'P') {      // t^4 + 2t^3 - slope*t (floating point: monitored, not compared with the model)
+			if (g) { for (std::size_t i = 0; i != n; ++i) (*g)(i) = 0.0; (*g)(j) = (4 * t * t * t + 6 * t * t - slope) / dj; }
+			return t * t * t * t + 2 * t * t * t - slope * t;
+		}
+		if (fk == 'M' && std::fabs(t) <= thr) {
+			if (g) { for (std::size_t i = 0; i != n; ++i) (*g)(i) = 0.0; (*g)(j) = -slope / dj; }
+			return -slope * t;
+		}
+		uint64_t h = seed * 0x9E3779B97F4A7C15ULL + 0x1234567ULL;
+		for (std::size_t i = 0; i != n; ++i) h = mix(h, x(i));
+		if (g) for (std::size_t i = 0; i != n; ++i) (*g)(i) = ((double)((h >> (20 + 6 * i)) & 0x3F) - 32.0) / 8.0;
+		return ((double)((h >> 11) & 0xFF) - 128.0) / 16.0;
+	}
+	double eval(RealVector const& x) const { ++m_evaluationCounter; double v = value(x, 0); Ev e = {'E', x(j) / dj, v, 0.0}; log.push_back(e); return v; }
+	double evalDerivative(RealVector const& x, FirstOrderDerivative& d) const {
+		++m_evaluationCounter; double v = value(x, &d);
+		double gd = 0.0; for (std::size_t i = 0; i != n; ++i) gd += d(i) * dir(i);
+		Ev e = {'D', x(j) / dj, v, gd}; log.push_back(e); return v;
+	}
+};
+
+__attribute__((noinline)) void fillStack(unsigned char pattern) {
+	volatile unsigned char buf[1 << 16];
+	for (std::size_t i = 0; i != sizeof buf; ++i) buf[i] = pattern;
+	asm volatile("" ::: "memory");
+}
+__attribute__((noinline)) void fillStackD(double v) {
+	volatile double buf[1 << 13];
+	for (std::size_t i = 0; i != (1 << 13); ++i) buf[i] = v;
+	asm volatile("" ::: "memory");
+}
+
+struct LsResult { RealVector p, g; double v; std::string log; bool nf; std::string exc; };
+
+__attribute__((noinline)) LsResult runLs(int ls, Hooked& f, RealVector const& point, RealVector const& d, double value, RealVector const& g, double t0) {
+	LsResult r; r.p = point; r.g = g; r.v = value; r.nf = false;
+	LineSearch<RealVector> s;
+	s.lineSearchType() = (ls == 0 ? LineSearchType::Dlinmin : ls == 1 ? LineSearchType::WolfeCubic : LineSearchType::Backtracking);
+	s.init(f);
+	f.log.clear(); f.nonfinite = false;
+	try { s(r.p, r.v, d, r.g, t0); } catch (std::exception const& e) { r.exc = e.what(); }
+	std::ostringstream o;
+	for (std::size_t i = 0; i != f.log.size(); ++i) { if (i) o << ","; o << f.log[i].k << ":" << hexd(f.log[i].t) << ":" << hexd(f.log[i].f) << ":" << hexd(f.log[i].gd); }
+	r.log = o.str(); r.nf = f.nonfinite;
+	return r;
+}
+
+std::string doLineSearch(std::vector<std::string> const& toks) {
+	std::vector<std::vector<std::string> > g = groups(toks, 1);
+	if (g.size() != 6 || g[0].size() != 6 || g[3].size() != 1 || g[4].size() != 1) return "BADLINE";
+	int ls = std::atoi(g[0][0].c_str()); std::size_t n = (std::size_t)std::atoi(g[0][1].c_str());
+	char fk = g[0][2][0]; uint64_t seed = std::strtoull(g[0][3].c_str(), 0, 10);
+	double slope = parseNum(g[0][4]), thr = parseNum(g[0][5]);
+	RealVector point = rv(nums(g[1])), d = rv(nums(g[2]));
+	if (point.size() != n || d.size() != n) return "BADLINE";
+	double t0 = parseNum(g[3][0]);
+	Hooked f(n, fk, seed, slope, thr, d);
+	RealVector g0(n); double v0 = f.value(point, &g0);
+	if (g[4][0] != "auto") v0 = parseNum(g[4][0]);
+	if (!(g[5].size() == 1 && g[5][0] == "auto")) { g0 = rv(nums(g[5])); if (g0.size() != n) return "BADLINE"; }
+	fillStack(0xFF);
+	LsResult a = runLs(ls, f, point, d, v0, g0, t0);
+	fillStackD(-1e300);
+	LsResult b = runLs(ls, f, point, d, v0, g0, t0);
+	bool ub = !(a.exc == b.exc && hexv(a.p) == hexv(b.p) && hexd(a.v) == hexd(b.v) && hexv(a.g) == hexv(b.g) && a.log == b.log);
+	std::ostringstream s;
+	if (!a.exc.empty()) return "EXC " + a.exc;
+	RealVector rg; double re = f.value(a.p, &rg);
+	s << "pt=" << hexv(a.p) << " val=" << hexd(a.v) << " der=" << hexv(a.g) << " reval=" << hexd(re) << " reder=" << hexv(rg)
+	  << " val0=" << hexd(v0) << " g0=" << hexv(g0) << " log=" << a.log << " nf=" << (a.nf ? 1 : 0) << " ub=" << (ub ? 1 : 0);
+	if (ub) s << " pt2=" << hexv(b.p) << " val2=" << hexd(b.v) << " der2=" << hexv(b.g);
+	return s.str();
+}
+
 } // namespace
 
 int main(int argc, char** argv) {
@@ -313,7 +434,8 @@ int main(int argc, char** argv) {
 		std::string out;
 		if (toks.empty()) { std::puts("?"); continue; }
 		try {
-			if (toks[0] == "I") out = doInit(c, toks);
+			if (toks[0] == "L") out = doLineSearch(toks);
+			else if (toks[0] == "I") out = doInit(c, toks);
 			else if (c.dead) out = "EXC " + c.deadmsg;
 			else if (toks[0] == "S") out = doSteps(c, 1, false);
 			else if (toks[0] == "R" && toks.size() == 2) out = doSteps(c, std::atol(toks[1].c_str()), true);
